@@ -83,8 +83,8 @@ theorem k7b_reach {tr : Trace} {endT : Int} {sd : SendE} {h : Nat} (hsd : sd ∈
     · have hc := not_closedBy hopen (sd.t + 100)
       simp [hdst, hup, hc, hend]
 
-theorem k7b_unique {tr : Trace} {endT : Int} (h : K7 Cfg.paper tr endT = true) {o1 o2 : Obl}
-    (h1 : o1 ∈ missing Cfg.paper tr endT) (h2 : o2 ∈ missing Cfg.paper tr endT) : o1 = o2 := by
+theorem k7b_same {tr : Trace} {endT : Int} (h : K7 Cfg.paper tr endT = true) {o1 o2 : Obl}
+    (h1 : o1 ∈ missing Cfg.paper tr endT) (h2 : o2 ∈ missing Cfg.paper tr endT) : o1.d = o2.d ∧ o1.t = o2.t := by
   simp only [K7, Bool.and_eq_true] at h
   have := List.all_eq_true.mp (List.all_eq_true.mp h.2 o1 h1) o2 h2
   simpa using this
